@@ -14,11 +14,11 @@ CORRESP. the Coq model PM.Choice against the real code on generated inputs, comp
 """
 import itertools
 import json
+import time
 
 import vlib
 
 ID = "C04"
-NOT_CLAIMED = "in progress"
 LEVEL = "proof"
 TRANSLATORS = []          # no generated table is involved in this property
 MODEL_TARGETS = ["theories/Choice.vo"]
@@ -92,8 +92,10 @@ def unj(case):
 # search: one input against the oracle
 # ---------------------------------------------------------------------------
 
-CASE_TIMEOUT = 6.0       # seconds for one call into the real code (a hang is a failure, not a stuck check)
+CASE_TIMEOUT = 20.0      # seconds for one call into the real code (a hang is a failure, not a stuck check)
 _TMO = [CASE_TIMEOUT]
+MAX_PRODUCT = 2500       # random inputs whose cross product (after simplify; before, for build_choices) is larger are skipped:
+                         # the maximality filter of build_choices is quadratic in it
 
 
 def _C():
@@ -189,7 +191,6 @@ def check_case(case):
 
 def shrink(case, budget=25.0):
     """Greedy shrinking of a failing input (any failure counts), within a time budget."""
-    import time
     deadline = time.time() + budget
 
     def fails(c):
@@ -379,6 +380,7 @@ def rand_set(rng, dom, n, maxsize=12):
                     i = rng.choice(free)
                     S.add(tuple(sorted(b + ((rng.choice(dom), i),), key=lambda d: d[1])))
     S = sorted(S)
+    assert all(is_wf(dom, n, s) for s in S), (dom, n, S)
     rng.shuffle(S)
     return S[:maxsize]
 
@@ -532,7 +534,8 @@ def search(ctx):
     Choices = _C()
     rng = ctx.rng
     failing = []
-    st = {"exhaustive": {}, "random": {}}
+    st = {"exhaustive": {}, "random": {}, "phase_seconds": {}}
+    t0 = time.time()
     ev = 0
     distinct = set()
     samples = []
@@ -540,11 +543,19 @@ def search(ctx):
     def record(case):
         if len(failing) >= 8:
             return
-        small = shrink(case) if len(failing) < 3 else case
-        r = check_case(small) or check_case(case)
-        if r:
-            r["shrunk_from"] = case
-            failing.append(r)
+        r = check_case(case)
+        if not r:
+            return              # not reproducible in this process (should not happen: everything is deterministic)
+        hang = isinstance(r.get("observed"), list) and r["observed"][:1] == ["CaseTimeout"]
+        if not hang and len(failing) < 3:
+            small = shrink(case)
+            r2 = check_case(small)
+            if r2:
+                r2["shrunk_from"] = case
+                r = r2
+        if hang:
+            r["what"] += f" (no result within {CASE_TIMEOUT}s)"
+        failing.append(r)
 
     # corpus first
     for case in vlib.corpus(ID):
@@ -558,7 +569,7 @@ def search(ctx):
 
     # -- exhaustive: all sets of well-formed sequences
     configs = [(1, 1, None), (1, 2, None), (1, 3, None), (2, 1, None), (3, 1, None), (4, 1, None), (2, 2, None), (3, 2, None),
-               (2, 3, ctx.n(5, 6)), (3, 3, ctx.n(3, 4)), (4, 2, ctx.n(4, 5))]
+               (2, 3, ctx.n(5, 6)), (3, 3, ctx.n(2, 4)), (4, 2, ctx.n(3, 5))]
     jobs = []
     for k, n, card in configs:
         m = len(wf_sequences(list(range(k)), n))
@@ -589,6 +600,8 @@ def search(ctx):
     for k, n, card in configs:
         st["exhaustive"][f"dom{k}_n{n}"]["max_cardinality"] = card if card is not None else "all subsets"
 
+    st["phase_seconds"]["exhaustive_generate_build"] = round(time.time() - t0, 1)
+    t0 = time.time()
     if len(failing) >= 3:       # enough concrete failing inputs: do not spend the budget on the other phases
         st["aborted_early"] = "failures found in the exhaustive generate/build phase"
         return failing, {"evaluations": ev, "distinct_nontrivial": n_exh, "rule": "aborted after the exhaustive phase (failures found)",
@@ -618,8 +631,10 @@ def search(ctx):
     ev += n_inter
     st["exhaustive"]["intersection_pairs"] = {"dom2_n2": len(pairs), "dom3_n2_sampled": len(p32), "dom2_n3_sampled": len(p23)}
 
+    st["phase_seconds"]["intersection_pairs"] = round(time.time() - t0, 1)
+    t0 = time.time()
     # -- random beyond: n <= 6, |S| <= 12
-    nrand = ctx.n(6000, 60000)
+    nrand = ctx.n(4000, 60000)
     sizes, ninf, skipped, kinds = {}, 0, 0, {"generate": 0, "build": 0, "intersection": 0}
     hist_n, hist_dom, simp_changed = {}, {}, 0
     cases = []
@@ -649,6 +664,7 @@ def search(ctx):
                 samples.append({"input": case, "accepted_vectors": nacc, "of": total})
             if r:
                 record(case)
+    st["phase_seconds"]["random"] = round(time.time() - t0, 1)
     done = max(1, sum(kinds.values()))
     st["random"] = {"cases": done, "skipped_product_too_large": skipped, "kinds": kinds,
                     "share_infinite": round(ninf / done, 3), "share_simplify_changed_set": round(simp_changed / done, 3),
@@ -724,7 +740,7 @@ def _rand_worker(chunk):
         except Exception:
             p = 0       # let check_case report the exception
         case = jcase(kind, dom, n, S, S2)
-        if p > 20000:
+        if p > MAX_PRODUCT:
             out.append((case, True, 0, 0, 0, None))
             continue
         r = check_case(case)
@@ -746,6 +762,7 @@ def correspondence(ctx):
     mism = []
     st = {}
     HANGS[0] = 0
+    t_start = time.time()
     if not ctx.coq_ok:
         return ["model not built: Choice correspondence not run"], {"cases": 0}
     jobs = []       # (name, text, describe(index) -> str)
@@ -983,7 +1000,10 @@ def correspondence(ctx):
     add("edge", edge_c, typ, chk_edge, edge_d)
 
     # ---- evaluate
+    t_obs = round(time.time() - t_start, 1)
+    t1 = time.time()
     results = vlib.coq_eval_many([(n, HEADER + b) for n, b in jobs], timeout=600)
+    t_coq = round(time.time() - t1, 1)
     ncases = 0
     per = {}
     for name, _ in jobs:
@@ -1000,9 +1020,12 @@ def correspondence(ctx):
             first = ds[idxs[0]] if idxs and idxs[0] < len(ds) else "?"
             mism.append(f"stream {stream}: model and real code differ on {len(idxs)} case(s); first: {first[:700]}")
     st = {"cases": ncases, "per_stream": per, "pass_calls_observed": calls, "pass_calls_that_changed_the_set": fired,
-          "edge_cases_raising_IndexError": n_edge_raise, "files": len(jobs)}
-    if min(fired.values()) == 0:
+          "edge_cases_raising_IndexError": n_edge_raise, "files": len(jobs),
+          "seconds_observing_real_code": t_obs, "seconds_coq_evaluation": t_coq}
+    if min(fired.values()) == 0 and HANGS[0] == 0:
         mism.append(f"pass stream degenerate: some pass never changed a set: {fired}")
+    if len(mism) > 12:
+        mism = mism[:12] + [f"... and {len(mism) - 12} more"]
     return mism, st
 
 
